@@ -370,6 +370,168 @@ class Rig:
         return out, listed
 
 
+def set_mtimes(src, dst, policy):
+    """the modification times of the source files relative to what is at the destination: "old" = long ago, "same" =
+    exactly the destination file's where there is one (else long ago), "now" = as created"""
+    if policy == "now":
+        return
+    todo = [(src, dst)]
+    while todo:
+        s_, d_ = todo.pop()
+        if os.path.isdir(s_) and not os.path.islink(s_):
+            for n in os.listdir(s_):
+                todo.append((os.path.join(s_, n), os.path.join(d_, n)))
+        elif os.path.isfile(s_) and not os.path.islink(s_):
+            ns = 10 ** 18
+            if policy == "same" and os.path.isfile(d_):
+                ns = os.stat(d_).st_mtime_ns
+            os.utime(s_, ns=(ns, ns))
+
+
+def run_history(rig, hist):
+    """hist: dict(direction, steps=[dict(chunk, filter, tree, mtime)]) - every step transfers its own source to the SAME
+    destination name.  Returns per step (listed source, destination before, outcome)."""
+    import rpyc.utils.classic as classic
+    rig.n += 1
+    base = os.path.join(rig.root, "h%d" % rig.n)
+    os.mkdir(base)
+    dst = os.path.join(base, "dst")
+    out = []
+    try:
+        for i, st in enumerate(hist["steps"]):
+            src = os.path.join(base, "src%d" % i)
+            materialize(src, st["tree"])
+            set_mtimes(src, dst, st.get("mtime", "now"))
+            before = read_tree(dst)
+            kw = {} if st["chunk"] is None else dict(chunk_size=st["chunk"])
+            fn = classic.upload if hist["direction"] == "upload" else classic.download
+            try:
+                fn(rig.conn, src, dst, filter=FILTERS[st["filter"]], ignore_invalid=False, **kw)
+            except Exception as ex:  # noqa
+                res = ("err", type(ex).__name__)
+            else:
+                res = ("ok", read_tree(dst))
+            out.append((read_tree(src), before, res))
+    finally:
+        shutil.rmtree(base, ignore_errors=True)
+    return out
+
+
+def history_line(hist, st, listed, before):
+    c = default_chunk(hist["direction"]) if st["chunk"] is None else st["chunk"]
+    return "files over %s %d %s F %s %s" % (hist["direction"], c, st["filter"],
+                                            "-" if before is None else tree_text(before), tree_text(listed))
+
+
+def same_size_variant(tree, salt):
+    """the same tree with every file's bytes changed and its size kept"""
+    if tree[0] == "F":
+        return ("F", bytes((b + 1 + salt + i) & 0xFF for i, b in enumerate(tree[1])))
+    if tree[0] == "D":
+        return ("D", [(n, same_size_variant(t, salt + k)) for k, (n, t) in enumerate(tree[1])])
+    return tree
+
+
+def boundary_histories():
+    out = []
+    for d in ("upload", "download"):
+        for c in (1, 7, None):
+            for n in (1, 7, 8, 15):
+                for pol in ("old", "same", "now"):
+                    a = content("pattern", n, c or 64000)
+                    b = bytes((x + 1) & 0xFF for x in a)
+                    out.append(dict(direction=d, steps=[dict(chunk=c, filter="N", tree=("F", a), mtime="now"),
+                                                        dict(chunk=c, filter="N", tree=("F", b), mtime=pol)]))
+        v1 = ("D", [("a.txt", ("F", b"version-1")), ("keep", ("F", b"same")), ("b.tmp", ("F", b"tmp1")),
+                    ("d1", ("D", [("c", ("F", b"cccc")), ("d2", ("D", [("deep", ("F", b"deep-1"))])), ("e", ("D", []))]))])
+        v2 = ("D", [("a.txt", ("F", b"VERSION-2")), ("keep", ("F", b"same")), ("b.tmp", ("F", b"tmp2")),
+                    ("d1", ("D", [("c", ("F", b"CC")), ("d2", ("D", [("deep", ("F", b"DEEP-2"))])), ("e", ("D", [])),
+                                  ("new", ("F", b"n"))]))])
+        for c in (7, None):
+            for f in ("N", "S" + b".tmp".hex()):
+                for pol in ("old", "same"):
+                    out.append(dict(direction=d, steps=[dict(chunk=c, filter=f, tree=v1, mtime="now"),
+                                                        dict(chunk=c, filter=f, tree=v2, mtime=pol),
+                                                        dict(chunk=c, filter=f, tree=v1, mtime="old")]))     # roll-back
+    return out
+
+
+def gen_history(r):
+    c = r.choice([1, 2, 7, None])
+    t = gen_tree(r, r.range(1, 3), c or 7, [0], force_dir=r.chance(3, 4))
+    t = strip_others(t)
+    steps = [dict(chunk=c, filter="N", tree=t, mtime="now"),
+             dict(chunk=c, filter=r.choice(["N", "N", "S" + b".tmp".hex()]), tree=same_size_variant(t, r.below(200)),
+                  mtime=r.choice(["old", "same", "now"]))]
+    if r.chance(1, 2):
+        steps.append(dict(chunk=c, filter="N", tree=t, mtime=r.choice(["old", "same"])))
+    return dict(direction=r.choice(["upload", "download"]), steps=steps)
+
+
+def strip_others(tree):
+    if tree[0] == "D":
+        return ("D", [(n, strip_others(t)) for n, t in tree[1] if t[0] != "X"])
+    return tree if tree[0] == "F" else ("F", b"")
+
+
+def covers(want, have):
+    """every file of `want` is in `have` under the same relative name with the same bytes, every directory exists; `have`
+    may hold more (what earlier transfers left)"""
+    if want is None:
+        return True
+    if have is None or want[0] != have[0]:
+        return False
+    if want[0] == "F":
+        return want[1] == have[1]
+    if want[0] == "D":
+        d = dict(have[1])
+        return all(n in d and covers(t, d[n]) for n, t in want[1])
+    return True
+
+
+def history_desc(hist, upto=None):
+    steps = hist["steps"][:upto]
+    return "%s to one name: %s" % (hist["direction"], " ; then ".join(
+        "chunk=%s filter=%s mtime=%s %s" % ("default" if st["chunk"] is None else st["chunk"], st["filter"],
+                                            st.get("mtime", "now"), brief(st["tree"])) for st in steps))
+
+
+def history_replay(hist):
+    return dict(kind="history", direction=hist["direction"], steps=[
+        dict(chunk=st["chunk"], filter=st["filter"], mtime=st.get("mtime", "now"), tree=tree_text(st["tree"]))
+        for st in hist["steps"]])
+
+
+def oracle_history(rig, hist):
+    """the statement on a history: after every transfer the destination holds the LAST source's files byte for byte"""
+    for i, (listed, _before, res) in enumerate(run_history(rig, hist)):
+        want = spec_prune(listed, FILTERS[hist["steps"][i]["filter"]])
+        if res[0] != "ok" or not covers(want, res[1]):
+            return "%s: after step %d the destination is %s, the statement requires the last source %s byte for byte" % (
+                history_desc(hist, i + 1)[:500], i + 1, show_diff(want, res), brief(want)[:200])
+    return None
+
+
+def show_diff(want, res):
+    if res[0] != "ok":
+        return "err " + res[1]
+    bad = []
+
+    def walk(w, h, path):
+        if w is None:
+            return
+        if h is None or w[0] != h[0]:
+            bad.append("%s: %s" % (path or ".", brief(h)))
+        elif w[0] == "F" and w[1] != h[1]:
+            bad.append("%s: %d bytes %s.. instead of %s.." % (path or ".", len(h[1]), h[1][:8].hex(), w[1][:8].hex()))
+        elif w[0] == "D":
+            d = dict(h[1])
+            for n, t in w[1]:
+                walk(t, d.get(n), path + "/" + n)
+    walk(want, res[1], "")
+    return "wrong at " + "; ".join(bad[:4])
+
+
 def default_chunk(direction):
     """the default chunk_size of the live function (what a call without chunk_size uses)"""
     import inspect
@@ -507,13 +669,17 @@ def correspondence(ctx):
               "x.partial; file vs directory differing by such a suffix) in a fixed corpus tree at depth 0 and nested, both "
               "creation orders, and sprinkled into seeded trees. Chunk sizes above the stream chunk (64001, 100000, 128000, "
               "1048576) x sizes {63999, 64000, 64001, 128000, 128001, 200000}, both directions. "
+              "Histories to ONE destination name: file A then file B of the same size and different bytes with B's source "
+              "mtime long ago / equal to the destination's / fresh; a tree, a new version of it (same-size changes, a size "
+              "change, a new file), then the first version again (roll-back); seeded trees re-transferred with every file "
+              "changed at equal size; each step compared with the model started from the real destination before it. "
               "File contents: random, all zeros, last / last complete / first / middle chunk all zeros, one repeated "
               "byte (00, ff, 0a, 0d), CR/LF-heavy, every chunk equal to the previous one, a zero-free pattern - at every "
               "boundary size for chunk 1, 2, 7 and at c, 2c, 3c+1 for the others, both directions. "
               "Non-trivial = at least one file or an error; distinct = distinct (direction, chunk, filter, shape of "
               "source with sizes and content class relative to the chunk, outcome).")
     r = Rng(ctx.seed).fork("c20")
-    cases = boundary_cases() + [gen_case(r) for _ in range(ctx.budget(400, 4000))]
+    cases = boundary_cases() + [gen_case(r) for _ in range(ctx.budget(200, 4000))]
     rig = Rig()
     impl, lines = [], []
     try:
@@ -521,13 +687,34 @@ def correspondence(ctx):
             out, listed = rig.run_case(case)
             impl.append((case, listed, out))
             lines.append(op_line(case, listed))
+        hists = boundary_histories() + [gen_history(r) for _ in range(ctx.budget(25, 600))]
+        hist_steps, hist_lines = [], []
+        for hist in hists:
+            for i, (listed, before, res) in enumerate(run_history(rig, hist)):
+                hist_steps.append((hist, i, listed, before, res))
+                hist_lines.append(history_line(hist, hist["steps"][i], listed, before))
     finally:
         rig.close()
     try:
         outs = run_driver(lines, exe="drv_files")
+        hist_outs = run_driver(hist_lines, exe="drv_files")
     except DriverError as ex:
         c.error = str(ex)
         return c
+    for (hist, i, listed, before, want), got_line in zip(hist_steps, hist_outs):
+        c.evaluations += 1
+        got = model_outcome(got_line)
+        st = hist["steps"][i]
+        c.count("history:step%d:%s:mtime-%s" % (i + 1, hist["direction"], st.get("mtime", "now")))
+        if show_outcome(got) != show_outcome(want):
+            c.disagreements.append(dict(case=history_desc(hist, i + 1)[:600] + " [destination before: %s]" % brief(before)[:200],
+                                        impl=show_brief(want)[:300], model=show_brief(got)[:300],
+                                        replay=history_replay(dict(hist, steps=hist["steps"][:i + 1]))))
+        else:
+            c.signatures.add("history|%s|%d|%s|%s|%s|%s" % (hist["direction"], i, st["chunk"], st["filter"],
+                                                          st.get("mtime"), shape(listed, 7)))
+            if i and len(c.samples) < 14 and c.evaluations % 29 == 0:
+                c.samples.append(dict(case=history_desc(hist, i + 1)[:400], outcome=show_brief(want)[:200]))
     tot = dict(files=0, dirs=0, others=0, empty_dirs=0, bytes=0)
     for (case, listed, want), got_line in zip(impl, outs):
         c.evaluations += 1
@@ -645,19 +832,47 @@ def oracle_search(ctx, corr, broken):
                          ignore_invalid=cur["ignore_invalid"], dest_exists=bool(cur.get("dest_exists")),
                          tree=tree_text(cur["tree"]), other_kinds=other_kinds(cur["tree"])), msg, sig)
 
+        def check_history(hist):
+            try:
+                return oracle_history(rig, hist)
+            except Exception as ex:  # noqa
+                return None if isinstance(ex, OSError) else "harness could not run the history: %r" % (ex,)
+
         cands = []
         for d in corr.disagreements[:50]:
             rp = d.get("replay")
-            if rp and rp.get("tree"):
+            if rp and rp.get("tree") and rp.get("kind") != "history":
                 cands.append(case_from_replay(rp))
-        cands += boundary_cases()
-        for case in cands:
-            msg = check(case)
-            if msg and not msg.startswith("harness"):
-                f = found(case, msg)
-                if f:
-                    return f
+        def try_histories(hs):
+            for hist in hs:
+                msg = check_history(hist)
+                if msg and not msg.startswith("harness"):
+                    sig = "c20:history:" + hist["direction"]
+                    if sig not in getattr(ctx, "known_signatures", ()):
+                        return history_replay(hist), msg, sig
+            return None
+
+        def try_cases(cs):
+            for case in cs:
+                msg = check(case)
+                if msg and not msg.startswith("harness"):
+                    f = found(case, msg)
+                    if f:
+                        return f
+            return None
+
+        hcands = [history_from_replay(d["replay"]) for d in corr.disagreements[:30]
+                  if d.get("replay", {}).get("kind") == "history"]
+        f = try_cases(cands) or try_histories(hcands) or try_cases(boundary_cases()) or try_histories(boundary_histories())
+        if f:
+            return f
         while _walltime.time() < deadline:
+            if r.chance(1, 4):
+                hist = gen_history(r)
+                msg = check_history(hist)
+                if msg and not msg.startswith("harness"):
+                    return history_replay(hist), msg, "c20:history:" + hist["direction"]
+                continue
             case = gen_case(r)
             msg = check(case)
             if msg and not msg.startswith("harness"):
@@ -683,7 +898,26 @@ def case_from_replay(rp):
                 dest_exists=rp.get("dest_exists", False), tree=fix(tree))
 
 
+def history_from_replay(rp):
+    return dict(direction=rp["direction"], steps=[
+        dict(chunk=st["chunk"], filter=st["filter"], mtime=st.get("mtime", "now"), tree=parse_tree(st["tree"].split())[0])
+        for st in rp["steps"]])
+
+
 def replay(case_d):
+    if case_d.get("kind") == "history":
+        hist = history_from_replay(case_d)
+        rig = Rig()
+        try:
+            steps = run_history(rig, hist)
+            res = dict(case=history_desc(hist), implementation=[show_brief(x[2]) for x in steps])
+            res["oracle"] = oracle_history(rig, hist) or "holds"
+            res["model"] = [show_brief(model_outcome(l)) for l in run_driver(
+                [history_line(hist, hist["steps"][i], listed, before) for i, (listed, before, _r) in enumerate(steps)],
+                exe="drv_files")]
+            return res
+        finally:
+            rig.close()
     case = case_from_replay(case_d)
     rig = Rig()
     try:
